@@ -147,6 +147,7 @@ namespace
     Snapshot stream;
     bool loaded = false;
     Snapshot input;
+    bool allow_empty_load = false;   // loading a checkpoint without objects (only while the probe of that class passes)
 
     bool enabled(const Op& o) const
     {
@@ -155,7 +156,7 @@ namespace
       case O_ADD: return reg.count(NAMES[o.name]) == 0;
       case O_REMOVE: return reg.count(NAMES[o.name]) == 1;
       case O_MUTATE: case O_SAVE: case O_CLEAR: return true;
-      case O_LOAD: return has_stream && !stream.empty() && !loaded;
+      case O_LOAD: return has_stream && (allow_empty_load || !stream.empty()) && !loaded;
       case O_RESTORE:
         {
           if(!loaded) return false;
@@ -274,7 +275,7 @@ int main(int argc, char** argv)
   spec.bounds_thorough = "as quick with depth <= 6";
   spec.assumptions = {
     "reference model = std::map<name, (kind, content fingerprint)> for stream and loaded input, std::map<name, slot> for the registration; fingerprints are read from the raw arrays",
-    "not generated (asserted preconditions of the API): add of a registered name, remove of an unknown name, load while input is loaded or before any save, restore without loaded input / "
+    "not generated (asserted preconditions of the API): add of a registered name, remove of an unknown name, load while input is loaded or before any save (loading a saved checkpoint without objects is generated), restore without loaded input / "
     "of an unknown name / with add=true for a registered name, restore into an object of another type than the one saved (not detectable by the format: all containers use fm_binary)",
     "serial build: Dist::Comm::world() without MPI; zlib/zfp configurations not available"};
   spec.max_samples = 8;
@@ -329,6 +330,7 @@ int main(int argc, char** argv)
       {
         Impl im;
         for(int s = 0; s < 3; ++s) { im.slot[s].kind = kinds[cfg][s]; m.kind[s] = kinds[cfg][s]; m.var[s] = 0; im.slot[s].set_variant(s, 0); m.content[s] = im.slot[s].fp(); }
+        m.allow_empty_load = (hz_empty == 0);
         m.reg.clear(); m.has_stream = false; m.stream.clear(); m.loaded = false; m.input.clear();
         for(int n = 0; n < 3; ++n) if(init & (1 << n)) { im.slot[n].add_to(im.cp, NAMES[n]); m.reg[NAMES[n]] = n; }
         enabled_last = true;
@@ -363,7 +365,7 @@ int main(int argc, char** argv)
               }
               break;
             case O_CLEAR: im.cp.clear_input(); m.loaded = false; m.input.clear(); break;
-            case O_LOAD: im.bs.seekg(0); im.cp.load(im.bs); m.loaded = true; m.input = m.stream; break;
+            case O_LOAD: im.bs.seekg(0); im.cp.load(im.bs); m.loaded = !m.stream.empty(); m.input = m.stream; break;
             case O_RESTORE:
               im.slot[o.slot].restore_from(im.cp, NAMES[o.name], o.add);
               m.content[o.slot] = m.input[NAMES[o.name]].second;
@@ -444,8 +446,18 @@ int main(int argc, char** argv)
         + " (base-4 digit n: 0 = name n unused, k = slot k-1) variant " + std::to_string(var); });
       int to_slot[3]; int nreg = 0;
       for(int n = 0; n < 3; ++n) { to_slot[n] = ((asg >> (2 * n)) & 3) - 1; if(to_slot[n] >= 0) ++nreg; }
-      if(nreg == 0) { c.excluded("file checkpoint without objects"); continue; }
       const std::string fn = scratch_file() + ".cp";
+      if(nreg == 0)
+      {
+        if(var != 0) continue;
+        Impl a0, b0;
+        a0.cp.save(fn);
+        b0.cp.load(fn);
+        c.check(b0.cp._input_array.empty() && b0.cp._offset_by_identifier.empty(), "checkpoint.file without objects", "");
+        unlink(fn.c_str());
+        c.count("file_checkpoints");
+        continue;
+      }
       Impl a;
       for(int s = 0; s < 3; ++s) { a.slot[s].kind = kinds[cfg][s]; a.slot[s].set_variant(s, (var + s) % NVAR); }
       for(int n = 0; n < 3; ++n) if(to_slot[n] >= 0) a.slot[to_slot[n]].add_to(a.cp, NAMES[n]);
